@@ -1,7 +1,7 @@
 """C16 - label predicates and encoder round trip (structural clauses)."""
 import ast
 
-from ..astutil import FuncTree, dominates, inline_temporaries
+from ..astutil import FuncTree, dominates, inline_temporaries, expand_delegation
 from ..common import norm_stmt
 from ..deps import names_in, base_name, index_names
 from ..index import AnalysisError
@@ -83,8 +83,8 @@ def run(p, report, tier):
     ui = p.get_func(MOD, "unlabeled_indices")
     params = ["y", "missing_label"]
     # structural rules look at the functions with single-use temporaries substituted back
-    iln = inline_temporaries(il.node)
-    iun = inline_temporaries(iu.node)
+    iln = inline_temporaries(expand_delegation(p, il))
+    iun = inline_temporaries(expand_delegation(p, iu))
     # ---- R16.1
     rets = [n for n in ast.walk(iln) if isinstance(n, ast.Return)]
     ok = False
@@ -95,7 +95,7 @@ def run(p, report, tier):
                detail="complement by construction" if ok else "is_labeled is not the plain inversion of is_unlabeled "
                "with both arguments forwarded")
     for f, pred in ((li, "is_labeled"), (ui, "is_unlabeled")):
-        fn_ = inline_temporaries(f.node)
+        fn_ = inline_temporaries(expand_delegation(p, f))
         calls = [n for n in ast.walk(fn_) if isinstance(n, ast.Call) and c01.callname(n) == pred]
         okc = len(calls) >= 1 and all(_forwarded(c, params) for c in calls)
         # argwhere over the predicate's result, returned
